@@ -75,7 +75,7 @@ UNITS = {
     'K-SEG': dict(engine='kani', jobs=10, files=['harness_segmented.rs'], support_files=['harness_raw.rs', 'gen.rs'],
                   module={'harness_segmented.rs': 'lru::segmented::verif_hooks::harness'},
                   n=dict(quick=2, thorough=2), bound='each segment: length <= {N}, capacity in 1..={N}',
-                  timeout=dict(quick=1200, thorough=5400),
+                  timeout=dict(quick=3600, thorough=5400),
                   functions=[dict(function='SegmentedCache::' + f, file='src/lru/segmented.rs', line=0, props=['C01', 'C02', 'C03', 'C05', 'C07', 'C12', 'C13', 'C16', 'C17'])
                              for f in ['put', 'get', 'get_mut', 'peek', 'peek_mut', 'contains', 'remove', 'purge', 'len', 'cap', 'is_empty', 'move_to_protected',
                                        'put_protected', 'peek_{lru,mru}(_mut)_from_{probationary,protected}', 'remove_lru_from_{probationary,protected}',
@@ -84,7 +84,7 @@ UNITS = {
     'K-2Q': dict(engine='kani', jobs=6, files=['harness_two_queue.rs'], support_files=['gen.rs'],
                  module={'harness_two_queue.rs': 'lru::two_queue::verif_hooks::harness'},
                  n=dict(quick=1, thorough=2), bound='size in 1..={N}, quota in 0..=size, ghost bound in 1..=size, each queue <= {N} entries',
-                 timeout=dict(quick=1800, thorough=7200),
+                 timeout=dict(quick=3600, thorough=7200),
                  functions=[dict(function='TwoQueueCache::' + f, file='src/lru/two_queue.rs', line=0, props=['C01', 'C02', 'C03', 'C05', 'C08', 'C12', 'C13', 'C14'])
                             for f in ['put', 'get', 'get_mut', 'peek', 'peek_mut', 'contains', 'remove', 'purge', 'len', 'cap', 'is_empty', 'move_to_frequent',
                                       '{recent,frequent,ghost}_len', '{recent,frequent,ghost}_{iter,iter_lru,iter_mut,iter_lru_mut,keys,keys_lru,values,values_lru,values_mut,values_lru_mut}', 'drop']],
@@ -92,7 +92,7 @@ UNITS = {
     'K-ARC': dict(engine='kani', jobs=6, files=['harness_adaptive.rs'], support_files=['gen.rs'],
                   module={'harness_adaptive.rs': 'lru::adaptive::verif_hooks::harness'},
                   n=dict(quick=1, thorough=2), bound='size in 1..={N}, p in 0..=size, each of the four lists <= {N} entries',
-                  timeout=dict(quick=1800, thorough=7200),
+                  timeout=dict(quick=3600, thorough=7200),
                   functions=[dict(function='AdaptiveCache::' + f, file='src/lru/adaptive.rs', line=0, props=['C01', 'C02', 'C03', 'C05', 'C09', 'C12', 'C13', 'C14'])
                              for f in ['put', 'replace', 'get', 'get_mut', 'peek', 'peek_mut', 'contains', 'remove', 'purge', 'len', 'cap', 'is_empty', 'move_to_frequent', 'partition',
                                        '{recent,frequent,recent_evict,frequent_evict}_len', '{recent,frequent,recent_evict,frequent_evict}_{iter,iter_lru,iter_mut,iter_lru_mut,keys,keys_lru,values,values_lru,values_mut,values_lru_mut}', 'drop']],
@@ -117,7 +117,7 @@ UNITS = {
                     module={'harness_wtinylfu.rs': 'lfu::wtinylfu::verif_hooks::harness'},
                     configs=['std', 'nostd'],
                     n=dict(quick=1, thorough=2), bound='window, probationary, protected: length <= {N}, capacity in 1..={N}; sketch rows of 2, 4 or 8 counters, one-word doorkeeper with 1..2 probes, sample size <= 4',
-                    timeout=dict(quick=1800, thorough=7200),
+                    timeout=dict(quick=3600, thorough=7200),
                     functions=[dict(function='WTinyLFUCache::' + f, file='src/lfu/wtinylfu.rs', line=0, props=['C01', 'C02', 'C03', 'C05', 'C10', 'C12', 'C13', 'C16', 'C17'])
                                for f in ['put', 'get', 'get_mut', 'peek', 'peek_mut', 'contains', 'remove', 'purge', 'len', 'cap', 'is_empty',
                                          'window_cache_len', 'window_cache_cap', 'main_cache_len', 'main_cache_cap', 'clone', 'drop', 'WTinyLFUCacheBuilder::finalize']],
@@ -136,7 +136,7 @@ UNITS = {
                    module={'harness_raw_life.rs': 'lru::raw::verif_hooks::harness_life', 'harness_segmented.rs': 'lru::segmented::verif_hooks::harness',
                            'harness_two_queue.rs': 'lru::two_queue::verif_hooks::harness', 'harness_adaptive.rs': 'lru::adaptive::verif_hooks::harness'},
                    n=dict(quick=2, thorough=2), bound='each list <= {N} entries; 32 tracked object ids',
-                   timeout=dict(quick=2400, thorough=7200),
+                   timeout=dict(quick=3600, thorough=7200),
                    functions=[dict(function=f, file='src/lru/*.rs', line=0, props=['C04', 'C03'])
                               for f in ['RawLRU::{put, remove, remove_lru, purge, resize, drop}', 'SegmentedCache::{put, put_protected, drop}', 'TwoQueueCache::{put, drop}', 'AdaptiveCache::{put, replace, drop}']],
                    assumptions=SHIM_ASSUMPTIONS + ['CBMC --memory-leak-check: every heap object allocated in the harness must be freed by the end (nodes, sentinels, index shim)']),
